@@ -590,16 +590,27 @@ fn build_function(
         })
         .transpose()?;
 
+    // the local that holds the function pointer must not shadow a parameter
+    let mut callee = String::from("f");
+    while function
+        .arguments
+        .iter()
+        .any(|a| matches!(a, Argument::Field(name, _) if *name == callee))
+    {
+        callee.insert(0, '_');
+    }
+    let callee = str_to_ident(&callee);
+
     let calling_convention = function.calling_convention.as_str();
     let function_body = match &function.body {
         FunctionBody::Address { address } => {
             let address = hex_literal(*address);
             quote! {
-                let f:
+                let #callee:
                     unsafe extern #calling_convention
                     fn(#(#lambda_arguments),*) #return_type
                 = ::std::mem::transmute(#address as usize);
-                f(#(#call_arguments),*)
+                #callee(#(#call_arguments),*)
             }
         }
         FunctionBody::Field {
@@ -628,8 +639,8 @@ fn build_function(
         FunctionBody::Vftable { function_name } => {
             let function_to_call_name = str_to_ident(function_name);
             quote! {
-                let f = std::ptr::addr_of!((*self.vftable()).#function_to_call_name).read();
-                f(#(#call_arguments),*)
+                let #callee = std::ptr::addr_of!((*self.vftable()).#function_to_call_name).read();
+                #callee(#(#call_arguments),*)
             }
         }
     };
